@@ -12,7 +12,7 @@ def plan(tier, seed):
         rq += pick(["c03::radix::generic::w3_u8_r%d" % r for r in (5, 6, 7, 9, 11, 12, 13, 14, 15, 17, 18, 19, 20, 21, 22, 23, 24, 25, 26, 27, 28, 29, 30, 31, 33, 34, 35)], seed, 3)
         groups.append(KGroup("R", [H(n, "write_with_options radix writer", "all values") for n in rq], timeout=900, jobs=8, mem_gb=8, label="radix"))
         groups.append(KGroup("C", w1[:2] + [H("c03::w1_u16", "compact writer", "all values")], timeout=900, jobs=4, mem_gb=8, label="compact"))
-        kernels = ["jeaiii_u8", "jeaiii_u16", "jeaiii_u32"]
+        kernels = ["jeaiii_u8", "jeaiii_u16", "jeaiii_u32", "jeaiii_i64"]
     else:
         w2 = w2q + [H("c03::w2_%s" % t, "cubes", "base +- d, d<=300") for t in ("u128", "i128", "usize", "isize")]
         groups.append(KGroup("D", w1 + w2, timeout=7200, jobs=8, mem_gb=12))
@@ -23,15 +23,15 @@ def plan(tier, seed):
         groups.append(KGroup("R", [H(n, "radix writer", "all values") for n in rad], timeout=3600, jobs=14, mem_gb=10, label="radix"))
         groups.append(KGroup("C", w1 + w2q, timeout=3600, jobs=8, mem_gb=10, label="compact"))
         groups.append(KGroup("CRF", [H(n, "compact radix writer", "all values") for n in rad[:13]] + [H("c03::fmt::w4_u8_plus", "required + sign", "all values"), H("c03::fmt::w4_i8_plus", "", "all values"), H("c03::fmt::w4_i16_plus", "", "all values")], timeout=3600, jobs=14, mem_gb=10, label="compact+radix+format"))
-        kernels = ["jeaiii_u8", "jeaiii_u16", "jeaiii_u32"]
+        kernels = ["jeaiii_u8", "jeaiii_u16", "jeaiii_u32", "jeaiii_u64", "jeaiii_i64"]
     return {
         "kani": groups,
         "smt": {"features": (), "kernels": kernels},
         "functions_encoded": ["lexical_core::write / write_with_options (Kani)", "lexical_write_integer::jeaiii::{from_u8,from_u16,from_u32,..} (MIR -> SMT)",
                               "lexical_write_integer::{algorithm::algorithm, radix, compact} (Kani, narrow types)"],
-        "bounds": ["Engine S: every value of u8/u16/u32 through the decimal jeaiii kernels (digit-pair table abstracted arithmetically after an entry-by-entry check)",
+        "bounds": ["Engine S: every value of u8/u16/u32 (quick) and additionally u64 and the i64 magnitude range (thorough; head/tail lemmas around the code's own n/10^10, n%10^10) through the decimal jeaiii kernels (digit-pair table abstracted arithmetically after an entry-by-entry check)",
                    "Kani: every value of u8/i8/u16/i16 through the public API, decimal and sampled (quick)/all (thorough) radices; compact writer",
                    "Kani cubes for 32/64/128-bit types: +-300 around powers of ten, 0, MIN, MAX"],
-        "outside_claim": ["non-decimal radices for 32/64/128-bit types", "64/128-bit decimal values outside the Kani cubes (the single-query Engine S u64/u128 kernels time out; block-wise lemmas were not built)"],
+        "outside_claim": ["non-decimal radices for 32/64/128-bit types", "128-bit decimal values outside the Kani cubes (needs a contract for div128_rem_1e10; not built)"],
         "assumptions": ["canonical numerals are unique, so the oracle (digits, no leading zero, Horner value) is equality with Display for radix 10"],
     }
